@@ -414,7 +414,116 @@ def composite_basis_case(ctx, k):
     ctx.nontrivial("composite-basis", kind, tuple(names))
 
 
+def synthetic_counts(ctx, k):
+    """Elements that exist only as DOF counts: random numbers of vertex / edge / facet / interior DOFs (0..4 each) on every
+    mesh kind - the numbering needs nothing else of an element - and nested wrappers the zoo does not contain."""
+    import skfem
+    from skfem.element import Element
+    rng = ctx.rng()
+    kind = G.KINDS[k % len(G.KINDS)]
+    mc = G.first_order(rng, kind)
+    mesh = mc.mesh
+    if mesh.t.shape[1] > 40:
+        S = np.sort(rng.choice(mesh.t.shape[1], size=40, replace=False))
+        p, t = G.clean(np.asarray(mesh.p), np.asarray(mesh.t)[:, S].astype(np.int64))
+        mesh = type(mesh)(p, t)
+    if (k // len(G.KINDS)) % 3 != 2:
+        counts = [int(c) for c in rng.integers(0, 5, size=4)]
+        if mc.dim == 1:
+            counts[2] = 0                    # facet DOFs in 1-D are not numbered by the library
+        if mc.dim < 3:
+            counts[1] = 0
+        if not any(counts):
+            counts[0] = 1
+        rdm = mesh.elem.refdom
+
+        class Syn(Element):
+            nodal_dofs, edge_dofs, facet_dofs, interior_dofs = counts
+            refdom = rdm
+            maxdeg = 1
+            dofnames = ["n%d" % i for i in range(counts[0])] + ["e%d" % i for i in range(counts[1])] + \
+                ["f%d" % i for i in range(counts[2])] + ["i%d" % i for i in range(counts[3])]
+        elem = Syn()
+        rec = _Named("Synthetic" + str(tuple(counts)))
+        ctx.reached("synthetic-dof-counts")
+    else:
+        b = {"line": ("ElementLineP2", "ElementLineP1"), "tri": ("ElementTriP2", "ElementTriP1"), "quad": ("ElementQuad2", "ElementQuad1"),
+             "tet": ("ElementTetP2", "ElementTetRT1"), "hex": ("ElementHex2", "ElementHexRT1"), "wedge": ("ElementWedge1", "ElementWedge1")}[kind]
+        e_hi, e_lo = (lambda: EL.by_name(b[0]).make()), (lambda: EL.by_name(b[1]).make())
+        nests = [("DG(Vector(hi))", lambda: skfem.ElementDG(skfem.ElementVector(e_hi()))),
+                 ("Vector(DG(hi))", lambda: skfem.ElementVector(skfem.ElementDG(e_hi()))),
+                 ("Composite(DG(lo),hi)", lambda: skfem.ElementComposite(skfem.ElementDG(e_lo()), e_hi())),
+                 ("Composite(Vector(hi,2),lo)", lambda: skfem.ElementComposite(skfem.ElementVector(e_hi(), 2), e_lo())),
+                 ("DG(Composite(hi,lo))", lambda: skfem.ElementDG(skfem.ElementComposite(e_hi(), e_lo())))]
+        nm, mkf = nests[int(rng.integers(len(nests)))]
+        try:
+            elem = mkf()
+        except Exception as e:
+            raise Skip("wrapper-not-constructible:" + nm + ":" + type(e).__name__)
+        rec = _Named(nm.replace("hi", b[0]).replace("lo", b[1]))
+        ctx.reached("nested-wrappers")
+    dofs = skfem.assembly.Dofs(mesh, elem)
+    check_dofs_structure(ctx, mesh, kind, mc.dim, elem, dofs, rec, dict(mc.desc, synthetic=True))
+
+
+def facet_sparsity(ctx, k):
+    """Matrices assembled on facet bases can be nonzero only inside the cell the basis integrates on (f2t[side, facet]),
+    and a rectangular matrix only at (test DOF of the cell, trial DOF of the cell)."""
+    import skfem
+    rng = ctx.rng()
+    kind = ("tri", "quad", "tet", "hex")[k % 4]
+    pool = [r for r in EL.all_for_kind(kind) if r.facet_basis and not r.skeleton and r.mesh_req == "any"]
+    rec = pool[(k // 4) % len(pool)]
+    mc = G.first_order(rng, kind)
+    mesh = mc.mesh
+    if mesh.t.shape[1] > 60:
+        raise Skip("mesh-too-large")
+    f2t = np.asarray(mesh.f2t)
+    itr = np.nonzero(f2t[1] != -1)[0]
+    bnd = np.nonzero(f2t[1] == -1)[0]
+    variants = [("boundary", lambda e: skfem.FacetBasis(mesh, e), f2t[0, bnd])]
+    if itr.size:
+        F = rng.choice(itr, size=max(1, itr.size // 2), replace=False).astype(np.int32)
+        variants.append(("facets-side1", lambda e: skfem.FacetBasis(mesh, e, facets=F, side=1), f2t[1, F]))
+        variants.append(("interior-side0", lambda e: skfem.InteriorFacetBasis(mesh, e, facets=F, side=0), f2t[0, F]))
+    h1 = [r for r in EL.of_kind(kind) if r.family == "h1" and not r.skeleton and r.mesh_req == "any" and r.facet_basis]
+    for nm, mkb, cells in variants:
+        try:
+            ub = mkb(rec.make())
+        except NotImplementedError:
+            continue
+        r2 = h1[int(rng.integers(len(h1)))]
+        vb = ub.with_element(r2.make())
+        for label, tb, A in (("square", ub, skfem.BilinearForm(generic_mass).assemble(ub)),
+                             ("rectangular", vb, skfem.BilinearForm(lambda *a: sum_values(a[:len(ub.basis[0])]) * sum_values(a[len(ub.basis[0]):-1])).assemble(ub, vb))):
+            edu = np.asarray(ub.dofs.element_dofs)[:, cells]
+            edv = np.asarray(tb.dofs.element_dofs)[:, cells]
+            allowed = set()
+            for c in range(edu.shape[1]):
+                allowed.update((int(i), int(j)) for i in edv[:, c] for j in edu[:, c])
+            Ac = A.tocoo()
+            nz = {(int(i), int(j)) for i, j, v in zip(Ac.row, Ac.col, Ac.data) if v != 0}
+            ctx.check("matrix-shape", A.shape == (tb.N, ub.N), mech=f"facet-basis-matrix-shape:{nm}:{label}", shape=A.shape, elem=rec.name)
+            ctx.check("sparsity-inside-cooccurrence", not (nz - allowed), mech=f"facet-basis-sparsity:{nm}:{label}",
+                      extra=lambda: sorted(nz - allowed)[:5], elem=rec.name, test=r2.name, mesh=type(mesh).__name__)
+    ctx.reached("facet-basis-sparsity")
+    ctx.nontrivial("facet-sparsity", rec.name, kind)
+
+
+def sum_values(fields):
+    out = 0
+    for f in fields:
+        a = np.array(f)
+        while a.ndim > 2:
+            a = a.sum(axis=0)
+        out = out + a
+    return out
+
+
+FAMILIES.append(Family("synthetic-counts", synthetic_counts, 36, 720))
+FAMILIES.append(Family("facet-sparsity", facet_sparsity, 16, 320))
 FAMILIES.append(Family("composite-basis", composite_basis_case, 24, 480))
 FAMILIES.append(Family("periodic", periodic_case, 12, 240))
 FAMILIES.append(Family("registry", registry_complete, 1, 1))
-REQUIRED_REACH = ["rectangular-assembly", "periodic-topology"]
+REQUIRED_REACH = ["rectangular-assembly", "periodic-topology", "composite-doflocs", "synthetic-dof-counts", "nested-wrappers",
+                  "facet-basis-sparsity"]
